@@ -76,6 +76,28 @@ def run_cfg(cfg, procs=1, mp=False, delays=None):
         os.environ.pop("CUPCAKE_ENABLE_MULTIPROCESSING", None)
 
 
+def fresh_digest(cfg):
+    """digest of one run in a process that has made no other call (worker entry point)"""
+    return digest(run_cfg(cfg))
+
+
+def fresh_admm(case):
+    from fast_ticc import admm
+    N, W, S, lam = case
+    return admm.admm_optimize_theta(np.array(S), lam, W, N).theta.tobytes().hex()
+
+
+# shapes whose stacked dimension N*W (hence every array length the solver sees) coincides while (N, W) differ
+HISTORY_SHAPES = [(2, 2), (1, 4), (4, 1), (2, 3), (3, 2), (1, 6), (6, 1), (1, 1), (2, 1), (1, 2)]
+
+
+def history_cfgs():
+    out = []
+    for j, (N, W) in enumerate(HISTORY_SHAPES):
+        out.append(dict(BASE, N=N, W=W, K=2, limit=2, lengths=[36 + (j % 3)], data_seed=300 + j, rng_seed=300 + j, regimes=2))
+    return out
+
+
 def cached_objects():
     from fast_ticc import matrix_compression as mc
     from fast_ticc.admm import unique_values as uv
@@ -130,6 +152,35 @@ def run(ctx):
                 r = run_cfg(cfg)
                 if digest(r) != dref:
                     ctx.violation("monitor", "result differs after a preceding call with another shape", {"cfg": cfg, "preceding": other})
+        # (d') every call must give what it gives in a process that made no other call: references from fresh worker
+        # processes, then the same calls here in two different orders (shapes with equal N*W but different (N, W) follow
+        # one another, so state keyed too coarsely - array length, total size - is exposed whichever call came first)
+        hc = history_cfgs()
+        handles = [core.start_worker(ctx, "vcheck.props.c14:fresh_digest", c, tag="fresh%d" % j) for j, c in enumerate(hc)]
+        fresh = [core.wait_worker(h) for h in handles]
+        rs = np.random.default_rng(ctx.seed + 14)
+        S_by_shape = {}
+        for (N, W) in HISTORY_SHAPES:
+            a = rs.normal(size=(N * W + 3, N * W))
+            S_by_shape[(N, W)] = (a.T @ a / (N * W + 3)).tolist()
+        adm_cases = [(N, W, S_by_shape[(N, W)], 0.11) for (N, W) in HISTORY_SHAPES]
+        adm_handles = [core.start_worker(ctx, "vcheck.props.c14:fresh_admm", c, tag="fadm%d" % j) for j, c in enumerate(adm_cases)]
+        adm_fresh = [core.wait_worker(h) for h in adm_handles]
+        for order_name, order in (("forward", list(range(len(hc)))), ("reversed", list(range(len(hc)))[::-1])):
+            for j in order:
+                ctx.count("history-fresh")
+                ctx.mark_nontrivial(("hf", order_name, j))
+                if adm_fresh[j]["ok"]:
+                    got = fresh_admm(adm_cases[j])
+                    if got != adm_fresh[j]["result"]:
+                        ctx.violation("monitor", "the optimiser's answer for (N, W) = %s depends on the calls made earlier in the process (order %s of %s)"
+                                      % (HISTORY_SHAPES[j], order_name, HISTORY_SHAPES), {"case": {"N": adm_cases[j][0], "W": adm_cases[j][1], "order": order_name}})
+                if not fresh[j]["ok"]:
+                    ctx.violation("tie", "fresh-process reference failed: %s" % fresh[j]["error"][:300], {"correspondence": "harness:C14/fresh"}, no_input=True)
+                    continue
+                if digest(run_cfg(hc[j])) != fresh[j]["result"]:
+                    ctx.violation("monitor", "a run with (N, W) = %s gives another result than in a process of its own (calls made before it: order %s of %s)"
+                                  % (HISTORY_SHAPES[j], order_name, HISTORY_SHAPES), {"cfg": hc[j], "order": order_name})
         ids1, content1 = cached_objects()
         if content0 != content1:
             ctx.violation("monitor", "an object returned by a memoised index helper was modified in place", {"before": content0[:300], "after": content1[:300]})
